@@ -349,18 +349,20 @@ Definition blt_table_of_sx (s : sx) : option (list str -> lres BallotFile.loaded
 
 Definition u_c19 (k : Z) (a : sx) : sx :=
   match k with
-  | 0 =>   (* (env value) -> saving, then loading directly and through JSON text *)
+  | 0 =>   (* (pinned env value) -> saving (pinned: the tree before fixes/C19-persist-rejects.diff), then loading directly and
+              through JSON text; representable, from_dict, loadable, wf_value *)
       match a with
-      | L [e; v] =>
-          match env_of_sx e, pval_of_sx v with
-          | Some E, Some pv =>
-              match serialize_value pv with
+      | L [p; e; v] =>
+          match as_bool p, env_of_sx e, pval_of_sx v with
+          | Some p', Some E, Some pv =>
+              match (if p' then serialize_value_pinned pv else serialize_value E pv) with
               | SErr => err Persist.E_VALUE
               | SOk j => ok (L [sx_of_jval j; sx_of_dres (deserialize_value E j);
                                 sx_of_dres (deserialize_value E (json_rt j));
-                                of_bool (representable E pv); sx_of_dres (from_dict E (json_rt j))])
+                                of_bool (representable E pv); sx_of_dres (from_dict E (json_rt j));
+                                of_bool (loadable E pv); of_bool (wf_value E pv)])
               end
-          | _, _ => bad_input
+          | _, _, _ => bad_input
           end
       | _ => bad_input
       end
